@@ -44,3 +44,25 @@ def match(prop, viol, scenario):
         except Exception:
             continue
     return None
+
+
+# ---------------------------------------------------------------------------------------------
+# predicates of open findings
+
+@predicate("gtf_noncanonical_source_rewritten")
+def _gtf_noncanonical(viol, scenario):
+    """KF-C04-gtf-always-eager: GTF is parsed eagerly by design (npdataclassreader._should_be_lazy), so writing
+    back re-serialises the table: non-canonical integer spellings in start/stop and CRLF line ends are normalised."""
+    f = scenario.get("file") or {}
+    if f.get("format") != "gtf" or viol.oracle not in ("write_back_exact", "write_back_fields"):
+        return False
+    if not viol.kind.startswith("gtf."):
+        return False
+    if (f.get("style") or {}).get("crlf"):
+        return True
+    for r in f.get("records") or []:
+        for fname in ("start", "stop"):
+            t = r["texts"][fname]
+            if t != str(int(t)):
+                return True
+    return False
